@@ -341,7 +341,13 @@ def check(ctx):
                 return True
             if t[0] == "call" and t[1][0] == "a" and t[1][2] == "set" and t[2] == (scale,) \
                     and t[1][1][0] == "s" and t[1][1][1][0] == "a" and t[1][1][1][2] == "at" \
-                    and is_call(t[1][1][1][1], "jax.numpy.zeros", "jax.numpy.zeros_like"):
+                    and (is_call(t[1][1][1][1], "jax.numpy.zeros")
+                         and kw(t[1][1][1][1], "dtype", 1) is None
+                         # zeros_like takes the dtype of its argument: only a float-valued
+                         # template (derived from the scales) keeps the scales exact; the
+                         # user's precision matrix may be integer-typed
+                         or is_call(t[1][1][1][1], "jax.numpy.zeros_like")
+                         and any(x == eig_t for x in subterms(t[1][1][1][1]))):
                 idx = t[1][1][2]
                 if idx[0] == "tuple" and len(idx[1]) >= 2 and idx[1][-1] == idx[1][-2] \
                         and is_call(idx[1][-1], "tuple", "jax.numpy.arange", "range", "list"):
@@ -439,6 +445,28 @@ def check(ctx):
 
     # ------------------------------------------------------------------ R3 / R4
     cp = repo.cls(COP)
+    # the density, CDF and sampler are TFP's TransformedDistribution applied to the
+    # construction checked below: the class itself must not override any of them
+    DENSITY_API = {"_log_prob", "log_prob", "_prob", "prob", "_log_cdf", "log_cdf", "_cdf", "cdf",
+                   "_sample_n", "sample", "_call_log_prob", "_call_prob", "_call_sample_n",
+                   "_log_survival_function", "_survival_function", "_quantile", "__call__",
+                   "_default_event_space_bijector", "experimental_local_measure"}
+    PUBLIC_WRAPPERS = {"log_prob", "prob", "sample", "cdf", "log_cdf", "forward", "inverse",
+                       "forward_log_det_jacobian", "inverse_log_det_jacobian", "__call__",
+                       "_call_log_prob", "_call_prob", "_call_sample_n", "_call_forward",
+                       "_call_inverse", "_call_forward_log_det_jacobian",
+                       "_call_inverse_log_det_jacobian"}
+    for ci_ in (mv, sg):
+        ov = sorted(m for m in ci_.methods if m in PUBLIC_WRAPPERS)
+        ctx.ob("C18.R4", ci_, f"{ci_.name} implements TFP's private hooks only; the public "
+                              f"entry points (argument handling, caching, Jacobian "
+                              f"bookkeeping) stay TFP's", not ov, detail=f"overrides {ov}",
+               stmt=f"{ci_.name} overrides {ov}")
+    overridden = sorted(m for m in cp.methods if m in DENSITY_API)
+    ctx.ob("C18.R4", cp, "GaussianCopula inherits its density / CDF / sampler from "
+                         "TransformedDistribution unchanged (no override that pre- or "
+                         "post-processes the argument)", not overridden,
+           detail=f"overrides {overridden}", stmt=f"copula overrides {overridden}")
     init = method(repo, cp, "__init__", own=True)
     ri = evaluate(repo, init)
     asserts = [e for e in ri.effects if e.term[0] == "assert"]
